@@ -616,7 +616,11 @@ def rule_z12(repo):
     (?!n::nat. n <= 0) --> false is "proved"."""
     res = RuleResult('C06.Z12', 'every Z3 variable made for a binder of type nat gets the guard v >= 0', floor=2)
     Z3W = 'prover/z3wrapper.py'
+    from ..inline import inlined
     f = repo.func(Z3W, 'convert.<locals>.rec')
+    # the opening of a binder may have been moved into a helper beside rec (open_quant(t, z3.ForAll, z3.Implies)): read it in place
+    f = inlined(f, lambda h: h.parent is not None and h.name != f.name and any(
+        isinstance(c, ast.Call) and (call_name(c) or '').endswith('convert_const') for c in ast.walk(h.node)))[0]
     flow = flow_of(f.node)
 
     def binder_type0(e):
